@@ -1,6 +1,6 @@
 #!/bin/bash
 # tools/seed_take.sh <Cxx> <suffix> <needs...>: evaluate the sub-agent seed in /tmp/w6-<Cxx> (seed_eval.sh) and store it
-P=$1; SFX=$2; shift 2; NEEDS="$*"; WT=${WT:-/tmp/w6-$P}
+P=$1; SFX=$2; shift 2; NEEDS="$*"; WT=${WT:-/tmp/${WAVE:-w7}-$P}
 OUT=$(/verif/tools/seed_eval.sh $P $WT 2>&1); echo "$OUT" | tail -9
 M=$(echo "$OUT" | grep -A1 'demo on modified' | grep -c 'exit 1'); C=$(echo "$OUT" | grep -A1 'demo on clean' | grep -c 'exit 0')
 [ "$M" = 1 ] && [ "$C" = 1 ] || { echo "NOT CONFIRMED (modified:$M clean:$C)"; exit 1; }
